@@ -214,7 +214,8 @@ CVertOK(r) == \E c \in {[v |-> <<V(r.t, r.v0), V(r.t, r.v1), V(r.t, r.v2)>>, a0 
 RotPtOK(r) == \E c \in {[p |-> V(r.t, r.p), dir |-> V(r.t, r.dir), q |-> V(r.t, r.q), rr |-> V(r.t, r.r)]} :
     LET t == r.t  a == VSub(c.p, c.q)  b == VSub(c.rr, c.q)  R2 == Norm2(a)
         sc == Sc(<<c.p, c.q>>)  tol == D!DScale(D!DMul(E(t), D!DSq(sc)), 2)
-    IN  /\ D!DWithin(DotV(b, c.dir), D!DZero, tol)                                   \* stays in the plane perpendicular to the axis
+    IN  /\ FinAll(t, r.r)                                                             \* also for a point on the axis (radius 0)
+        /\ D!DWithin(DotV(b, c.dir), D!DZero, tol)                                   \* stays in the plane perpendicular to the axis
         /\ D!DWithin(Norm2(b), R2, tol)                                             \* at the same distance from it
         /\ D!DWithin(DotV(a, b), D!DMul(R2, S(t, r.cos)), tol)                       \* turned by the angle
         /\ D!DWithin(DotV(CrossV(a, b), c.dir), D!DNeg(D!DMul(R2, S(t, r.sin))), tol)
